@@ -9,6 +9,8 @@
 -/
 import BurrowVerif.Proofs.HttpMetrics
 import BurrowVerif.Generated.Http
+import BurrowVerif.Generated.StorageLocks
+import BurrowVerif.Proofs.Locks
 
 namespace Burrow.Props.C17
 open Burrow Burrow.Http Burrow.Storage
@@ -153,5 +155,24 @@ theorem series_names (cluster group : String) (g : Group.GroupStatus) :
         · simp at hp; rcases hp with rfl | rfl <;> simp
         · simp at hp
       · simp at hp
+
+/-! ### deletion under the worker pool
+
+"Nothing outlives its deletion" presupposes that a group's deletion is applied after the group's
+earlier commits.  On the worker pool that is the routing switch of `mainLoop` (regenerated from
+inmemory.go on every run): every group-keyed request — and only those — is hashed, and hashed on
+cluster+group alone. -/
+
+theorem group_requests_share_the_groups_worker :
+    (Generated.storageHandlers.filter fun h => h.2.2.1 != "any").map (fun h => (h.1, h.2.2.1)) =
+    [("StorageClearConsumerOwners", "hashed"), ("StorageFetchConsumer", "hashed"), ("StorageSetConsumerOffset", "hashed"),
+     ("StorageSetConsumerOwner", "hashed"), ("StorageSetDeleteGroup", "hashed")] := by decide
+
+/-- a deletion arriving after a commit of the same group reaches the same worker (whose queue is FIFO:
+    `Locks.queue_is_sublist`), for every number of workers and every hash -/
+theorem deletion_reaches_the_commits_worker (n : Nat) (hash : String → Nat) (pick : Nat → Nat) (commit delete : Locks.Req)
+    (h1 : commit.hashed = true) (h2 : delete.hashed = true) (hk : commit.key = delete.key) :
+    Locks.assign n hash pick delete = Locks.assign n hash pick commit :=
+  (Locks.same_key_same_worker n hash pick commit delete h1 h2 hk).symm
 
 end Burrow.Props.C17
